@@ -25,6 +25,8 @@
 #include <sys/socket.h>
 #include <sys/syscall.h>
 #include <sys/stat.h>
+#include <sys/utsname.h>
+#include <alloca.h>
 #include <sys/time.h>
 #include <sys/un.h>
 #include <sys/wait.h>
@@ -191,6 +193,13 @@ static void at_exec(int idx) {
     rc->track = was_tracking;
 }
 
+/* stack contents below the caller are arbitrary: fill them with a non-zero pattern before the call (command dirtystack <bytes>) */
+static size_t dirty_bytes = 0;
+static void __attribute__((noinline)) dirty_stack(size_t nbytes) {
+    volatile unsigned char *p = alloca(nbytes);
+    for (size_t i = 0; i < nbytes; i++) p[i] = 0xA5;
+    __asm__ volatile("" ::: "memory");
+}
 static void do_call(const char *kind) {
     rc->ncalls = 0; rc->mode = cur.real ? REC_MODE_REAL : REC_MODE_RETURN; rc->ret = cur.ret; rc->err = cur.err; rc->on_call = at_exec;
     free(cur.s_path); cur.s_path = cur.path ? (unsigned char *) strdup((char *) cur.path) : NULL;
@@ -207,6 +216,7 @@ static void do_call(const char *kind) {
     int r;
     if (getenv("XDRV_MARK")) { if (write(-1, "XDRV-ENTER", 10) < 0) {} }       /* markers for syscall-level tracers (C03) */
     rc->track = 1;
+    if (dirty_bytes) dirty_stack(dirty_bytes);
     if (strcmp(kind, "execv") == 0) r = execv((char *) cur.path, cur.argv);
     else r = execve((char *) cur.path, cur.argv, cur.envp);
     int e = errno;
@@ -350,6 +360,17 @@ static size_t run_line(size_t pc, int in_child, int *stop) {
         if (!strcmp(c, "listdir")) opf("]}\n");
         free(a);
     } else if (!strcmp(c, "dumpable")) { prctl(PR_SET_DUMPABLE, 1);
+    } else if (!strcmp(c, "writefile")) { unsigned char *a = unhex(tok[1], &n); size_t m = 0; unsigned char *b = unhex(tok[2], &m);
+        int fd = open((char *) a, O_WRONLY | O_CREAT | O_TRUNC, 0644); if (fd < 0 || write(fd, b, m) < 0) opf("{\"ev\":\"error\",\"what\":\"writefile: %s\"}\n", strerror(errno)); if (fd >= 0) close(fd); free(a); free(b);
+    } else if (!strcmp(c, "chmodpath")) { unsigned char *a = unhex(tok[1], &n); if (chmod((char *) a, (mode_t) strtol(tok[2], NULL, 8))) opf("{\"ev\":\"error\",\"what\":\"chmod: %s\"}\n", strerror(errno)); free(a);
+    } else if (!strcmp(c, "dirtystack")) { dirty_bytes = (size_t) atol(tok[1]);
+    } else if (!strcmp(c, "sethostname")) { unsigned char *a = unhex(tok[1], &n); if (sethostname((char *) a, n)) opf("{\"ev\":\"error\",\"what\":\"sethostname: %s\"}\n", strerror(errno)); free(a);
+    } else if (!strcmp(c, "rmdir")) { unsigned char *a = unhex(tok[1], &n); if (rmdir((char *) a)) opf("{\"ev\":\"error\",\"what\":\"rmdir: %s\"}\n", strerror(errno)); free(a);
+    } else if (!strcmp(c, "chdirdeep")) {                            /* chdir <hex base> then <count> times mkdir+chdir <hex component>: reaches paths longer than PATH_MAX */
+        unsigned char *a = unhex(tok[1], &n), *comp = unhex(tok[3], &n); int cnt = atoi(tok[2]);
+        if (chdir((char *) a)) opf("{\"ev\":\"error\",\"what\":\"chdirdeep: %s\"}\n", strerror(errno));
+        for (int i = 0; i < cnt; i++) { mkdir((char *) comp, 0777); if (chdir((char *) comp)) { opf("{\"ev\":\"error\",\"what\":\"chdirdeep: %s\"}\n", strerror(errno)); break; } }
+        free(a); free(comp);
     } else if (!strcmp(c, "setsid")) { if (setsid() < 0) opf("{\"ev\":\"error\",\"what\":\"setsid: %s\"}\n", strerror(errno));
     } else if (!strcmp(c, "rename")) { unsigned char *a = unhex(tok[1], &n), *b2 = unhex(tok[2], &n); if (rename((char *) a, (char *) b2)) opf("{\"ev\":\"error\",\"what\":\"rename: %s\"}\n", strerror(errno)); free(a); free(b2);
     } else if (!strcmp(c, "mkdirp")) { unsigned char *a = unhex(tok[1], &n); for (char *q = (char *) a + 1; *q; q++) if (*q == '/') { *q = 0; mkdir((char *) a, 0777); *q = '/'; } mkdir((char *) a, 0777); free(a);
@@ -358,13 +379,14 @@ static size_t run_line(size_t pc, int in_child, int *stop) {
         char cwd[8192] = "", in0[512] = "", host[256] = "", lg[256] = ""; ssize_t q;
         q = readlink("/proc/self/cwd", cwd, sizeof cwd - 1); if (q < 0) q = 0; cwd[q] = 0;
         q = readlink("/proc/self/fd/0", in0, sizeof in0 - 1); if (q < 0) q = 0; in0[q] = 0;
-        gethostname(host, sizeof host - 1);
+        { struct utsname un; if (uname(&un) == 0) snprintf(host, sizeof host, "%s", un.nodename); }
         int lgr = getlogin_r(lg, sizeof lg);
+        char cwdsys[16384]; long cwdrc = syscall(SYS_getcwd, cwdsys, sizeof cwdsys); int cwderr = cwdrc < 0 ? errno : 0;
         struct stat st0; int isatty0 = isatty(0); long ttyuid = -1; if (isatty0 && stat(in0, &st0) == 0) ttyuid = (long) st0.st_uid;
         struct timeval tv; gettimeofday(&tv, NULL);
         opf("{\"ev\":\"procstate\",\"label\":\"%s\",\"ruid\":%u,\"euid\":%u,\"suid\":%u,\"rgid\":%u,\"egid\":%u,\"sgid\":%u,\"pid\":%d,\"ppid\":%d,\"sid\":%d,\"ktid\":%ld,\"pthread_self\":\"%lu\",",
             ntok > 1 ? tok[1] : "", r, e, sv, gr, ge, gs, (int) getpid(), (int) getppid(), (int) getsid(0), (long) syscall(SYS_gettid), (unsigned long) pthread_self());
-        opf("\"isatty\":%d,\"ttyuid\":%ld,\"login_rc\":%d,\"now\":%ld,\"cwd\":", isatty0, ttyuid, lgr, (long) tv.tv_sec); ohex((unsigned char *) cwd, strlen(cwd));
+        opf("\"isatty\":%d,\"ttyuid\":%ld,\"login_rc\":%d,\"now\":%ld,\"getcwd_errno\":%d,\"getcwd_len\":%ld,\"cwd\":", isatty0, ttyuid, lgr, (long) tv.tv_sec, cwderr, cwdrc); ohex((unsigned char *) cwd, strlen(cwd));
         opf(",\"stdin\":"); ohex((unsigned char *) in0, strlen(in0)); opf(",\"hostname\":"); ohex((unsigned char *) host, strlen(host)); opf(",\"login\":"); ohex((unsigned char *) lg, lgr == 0 ? strlen(lg) : 0);
         opf(",\"cgroup\":"); { int f = open("/proc/self/cgroup", O_RDONLY); static unsigned char cb[65536]; ssize_t rr = f >= 0 ? read(f, cb, sizeof cb) : 0; if (rr < 0) rr = 0; if (f >= 0) close(f); ohex(cb, (size_t) rr); }
         opf(",\"environ\":["); for (size_t i = 0; environ && environ[i]; i++) { if (i) opf(","); ohex((unsigned char *) environ[i], strlen(environ[i])); } opf("]}\n");
